@@ -65,6 +65,16 @@ impl Rng {
     pub fn bytes(&mut self, n: usize) -> Vec<u8> {
         (0..n).map(|_| self.next() as u8).collect()
     }
+    /// random bytes of a random length in 0..max
+    pub fn bytes_upto(&mut self, max: usize) -> Vec<u8> {
+        let n = self.usize(max.max(1));
+        self.bytes(n)
+    }
+    /// random bytes of a random length in 1..=max
+    pub fn bytes_1upto(&mut self, max: usize) -> Vec<u8> {
+        let n = 1 + self.usize(max.max(1));
+        self.bytes(n)
+    }
     pub fn shuffle<T>(&mut self, xs: &mut [T]) {
         for i in (1..xs.len()).rev() {
             let j = self.usize(i + 1);
